@@ -72,6 +72,9 @@ Fixpoint source_valuations (n : nat) (srcs : list nat) : list space :=
   | v :: r => flat_map (fun b => map (set_nth v (Some b)) (source_valuations n r)) [false; true]
   end.
 
+(* the source shortcut also discards the candidates cached for the stub (fix 3581ec3) *)
+Definition clear_cands (d : sd) (i : nat) : sd := upd_node d i (fun y => set_cands y None).
+
 Definition set_empty_seeds (d : sd) (i : nat) : sd :=
   let t := cur_tag d i in
   upd_node (upd_node d i (fun y => set_seeds y (Some t))) i (fun y => set_sets y (Some t)).
@@ -112,7 +115,7 @@ Fixpoint block_level (N : net) (cfg : config) (check_maa opt_src : bool) (size_l
         else if match size_limit with Some k => Nat.ltb k expected | None => false end then (d, RBool false, next, tape)
         else
           let '(d1, kids) := ensure_children N d x (map (merge sp) (source_valuations (nvars N) srcs)) [] in
-          let d2 := set_empty_seeds (upd_node d1 x (fun y => set_exp y true)) x in
+          let d2 := set_empty_seeds (clear_cands (upd_node d1 x (fun y => set_exp y true)) x) x in
           block_level N cfg check_maa opt_src size_limit d2 cur' (union_nat next kids) tape
       else
         let '(d1, r, succ0) := node_successors N cfg d x in
